@@ -77,12 +77,33 @@ pub fn generate(case_seed: u64, idx: u64, tier: Tier) -> Case {
             sup_conf: *rng.pick(&[200u16, 800]),
         })
         .collect();
+    let mut specs: Vec<ASpec> = specs;
+    if idx % 5 != 0 && rng.chance(1, 5) {
+        // bridge template: three groups that look independent (distinct actors,
+        // distinct or no evidence) and one assertion that ties all of them
+        // together (an actor of one group citing the evidence of the others);
+        // whether the engine sees one group depends on when the bridge is recorded
+        let conf = |rng: &mut Rng| Some(*rng.pick(&[300u16, 500, 700, 900]));
+        let plain = |actor: u8, evidence: Vec<u8>, c: Option<u16>| ASpec { target: 0, actor, evidence, stance: 0, confidence: c, mode: 0, window: None, lifecycle: 0, sup_conf: 200 };
+        let mut t = vec![plain(0, vec![0], conf(&mut rng)), plain(1, vec![1], conf(&mut rng)), plain(2, vec![], conf(&mut rng)), plain(2, vec![0, 1], conf(&mut rng))];
+        if rng.bool() {
+            // or: evidence-only bridge across three evidence-disjoint groups
+            t = vec![plain(0, vec![0], conf(&mut rng)), plain(1, vec![1], conf(&mut rng)), plain(2, vec![2], conf(&mut rng)), plain(rng.below(3) as u8, vec![0, 1, 2], conf(&mut rng))];
+        }
+        if let Some(extra) = specs.first().cloned() {
+            if rng.bool() {
+                t.push(extra);
+            }
+        }
+        specs = t;
+    }
     let k = if tier == Tier::Thorough { 4 } else { 3 };
     Case {
         seed: case_seed,
         functional,
         specs,
-        eval_at: vec![0, 45, -45, 100],
+        // some evaluation instants coincide with window edges to the millisecond
+        eval_at: vec![0, *rng.pick(&[45, 30, 60]), *rng.pick(&[-45, -30, -60]), *rng.pick(&[100, 90])],
         schedules: (0..k)
             .map(|i| Schedule::Seeded {
                 seed: rng.next_u64(),
